@@ -973,13 +973,26 @@ class TorControlProtocol(LineOnlyReceiver):
             return True
         return False
 
+    def _line_callback(self):
+        """
+        The per-line callback of the in-flight command, or None. Only
+        lines of a 2xx reply belong to the command: 650 events can
+        arrive while it is in flight, and the text of a 5xx reply goes
+        into the error.
+        """
+        if self.command and self.command[2] is not None and \
+           self.code is not None and 200 <= self.code < 300:
+            return self.command[2]
+        return None
+
     def _start_command(self, line):
         "for FSM"
         # print "startCommand",self.code,line
         self.code = int(line[:3])
         # print "startCommand:",self.code
-        if self.command and self.command[2] is not None:
-            self.command[2](line[4:])
+        line_cb = self._line_callback()
+        if line_cb is not None:
+            line_cb(line[4:])
         else:
             self.response = line[4:] + '\n'
         return None
@@ -1002,8 +1015,9 @@ class TorControlProtocol(LineOnlyReceiver):
 
     def _accumulate_multi_response(self, line):
         "for FSM"
-        if self.command and self.command[2] is not None:
-            self.command[2](line)
+        line_cb = self._line_callback()
+        if line_cb is not None:
+            line_cb(line)
 
         else:
             self.response += (line + '\n')
@@ -1011,8 +1025,9 @@ class TorControlProtocol(LineOnlyReceiver):
 
     def _accumulate_response(self, line):
         "for FSM"
-        if self.command and self.command[2] is not None:
-            self.command[2](line[4:])
+        line_cb = self._line_callback()
+        if line_cb is not None:
+            line_cb(line[4:])
 
         else:
             self.response += (line[4:] + '\n')
